@@ -102,10 +102,14 @@ pub struct Model {
 }
 
 pub fn canon(st: &St) -> Vec<u8> {
+    canon_store(&st.store, st.l)
+}
+
+pub fn canon_store(store: &Store, l: L) -> Vec<u8> {
     // exhaustive destructuring: a new field in `Store` must be added here or this stops compiling
-    let Store { next_ix, records, limit, lang: _, dividers, index, top_ixs } = &st.store;
+    let Store { next_ix, records, limit, lang: _, dividers, index, top_ixs } = store;
     let mut k = Vec::with_capacity(256);
-    k.push(st.l as u8);
+    k.push(l as u8);
     k.extend_from_slice(&(*next_ix as u64).to_le_bytes());
     k.extend_from_slice(&(*limit as u64).to_le_bytes());
     for r in records {
@@ -157,6 +161,8 @@ pub struct C10Sys {
     pub l: L,
     pub menu: Menu,
     pub prop: &'static str,
+    /// C01's statement does not mention clear(): its history search runs without it
+    pub allow_clear: bool,
 }
 
 impl C10Sys {
@@ -183,7 +189,9 @@ impl Sys for C10Sys {
         for i in 0..self.menu.recs.len() {
             v.push(Op::Add(i));
         }
-        v.push(Op::Clear);
+        if self.allow_clear {
+            v.push(Op::Clear);
+        }
         for n in LIMITS {
             v.push(Op::Limit(n));
         }
@@ -318,7 +326,7 @@ impl Prop for C10 {
     }
     fn run(&self, _dom: usize, idx: u64, cx: &mut Cx) {
         let (l, s) = self.configs[idx as usize];
-        let sys = C10Sys { l, menu: menu(l), prop: "C10" };
+        let sys = C10Sys { l, menu: menu(l), prop: "C10", allow_clear: !cx.c01 };
         let start: Vec<Op> = STARTS[s].iter().map(|i| Op::Add(*i)).collect();
         let cap = Duration::from_secs(self.tier.pick(120, 2400));
         let out = bfs(&sys, cx, "merged_", vec![start.clone()], self.depth(true), true, cap, None);
